@@ -18,7 +18,9 @@ RULE = (
     "GTF-style dialects (fmt=gtf, 'key \"value\"' or 'key value') with values free of ; \" , and controls. Non-trivial = "
     "some value contains a reserved or control character (gff3) / a space, '=', '%' or non-ASCII (gtf). "
     "(b) every string up to length 5 (quick) / 7 (thorough) over the 8 symbols ; = \" , % a 2 and space, enumerated "
-    "exhaustively, plus random text; non-trivial = at least 2 structural characters. Distinct by construction / hash."
+    "exhaustively, plus random text; non-trivial = at least 2 structural characters. Distinct by construction / hash. "
+    "(fuzz_parse) atheris campaigns on the same totality oracle from an empty corpus and from column-9 strings of the "
+    "repository's test data; distinct non-trivial counted conservatively as the final corpus units that satisfy the rule."
 )
 ASSUMPTIONS = [
     "keys are word-like ([A-Za-z_][A-Za-z0-9_.-]*); values are non-empty strings of Unicode scalar values",
@@ -305,4 +307,36 @@ class RandomStringsLeg(object):
         return parse_total(case["s"])
 
 
-LEGS = [RoundTripLeg(), ExhaustiveStringsLeg(), RandomStringsLeg()]
+def _seed_corpus():
+    """Column-9 strings harvested at run time from the repository's own test data."""
+    import glob
+    import os
+
+    from gfv import core as _core
+
+    out = []
+    for path in sorted(glob.glob(os.path.join(_core.REPO, "gffutils", "test", "data", "*")))[:40]:
+        if not os.path.isfile(path) or path.endswith((".gz", ".fa", ".fai", ".db", ".sh")):
+            continue
+        try:
+            with open(path, "rb") as fh:
+                for i, line in enumerate(fh):
+                    if i > 40:
+                        break
+                    parts = line.rstrip(b"\r\n").split(b"\t")
+                    if len(parts) >= 9 and not line.startswith(b"#") and len(parts[8]) <= 200:
+                        out.append(parts[8])
+        except OSError:
+            continue
+    return out[:300]
+
+
+def _nt_bytes(b):
+    s = b.decode("utf-8", "ignore")
+    return sum(1 for ch in s if ch in ';=",% ') >= 2
+
+
+from gfv.fuzzleg import FuzzLeg  # noqa: E402
+
+LEGS = [RoundTripLeg(), ExhaustiveStringsLeg(), RandomStringsLeg(),
+        FuzzLeg("fuzz_parse", "c08", {"quick": (2, 30000), "thorough": (4, 1500000)}, _nt_bytes, _seed_corpus, max_len=96)]
